@@ -9,26 +9,38 @@ ENTRIES = ["entry_relabel", "entry_neighbors", "entry_colors", "entry_euler", "e
            "entry_check_acc"]
 EXTRACT = ("theories/Extract/XC15.v", "c15", ENTRIES)
 PYX = {"_cpmorphology2.pyx": ["_all_connected_components"]}
-RULE = ("label images: shapes skewed to 1x1, 1xN, Nx1, 2x2, 3x3 and up to 12x12 (thorough 16x16); contents from "
-        "random labels at several densities, connected components of noise with random renumbering, rings and nested "
-        "rings (holes), split labels, absent label numbers (x3), objects on the border, checkerboards, several dtypes; "
-        "every image goes through relabel, find_neighbors, color_labels and euler_number (indexes incl. absent labels, "
-        "and indexes=None). Edge lists: random multigraphs with self-loops, duplicates and isolated vertices, stars, "
-        "cycles, shuffled and sorted chains up to 3000 vertices (thorough 50000: deep traversal). Non-trivial = an image "
-        "with two touching labels or a hole, a graph with an edge joining two different vertices; distinct by hash")
+RULE = ("label images: shapes skewed to 1x1, 1xN, Nx1, 2x2, 3x3 and up to 12x12 (thorough 16x16); contents from random "
+        "labels at several densities, connected components of noise with random renumbering, rings and nested rings "
+        "(holes), split labels, objects on the border, checkerboards, and fully tiled images without any background "
+        "pixel (random tiles, blocks, stripes, one object); numbering plain / absent numbers (x2,x3,x7) / sparse up to "
+        "300, 5000, 60000 / largest label at a dtype maximum (127, 255, 32767, 65535); every integer dtype that holds "
+        "the labels (int8..int64, uint8..uint64; bool for euler_number's binary mode), C / Fortran / strided / "
+        "read-only layouts; every image goes through relabel, find_neighbors, color_labels and euler_number; "
+        "euler_number indexes as list, tuple, int32/int64/uint8/uint16/uint32 arrays, scalar and None, sorted, "
+        "shuffled, with duplicates and absent labels. Edge lists: random multigraphs with self-loops, duplicates and "
+        "isolated vertices, stars, cycles, shuffled and sorted chains up to 3000 vertices (thorough 50000: deep "
+        "traversal), vertex numbers up to 100000 (thorough 400000) with few edges, in int64/int32/uint32/uint64/"
+        "int16/uint8, contiguous / strided / read-only. Every case is called twice in the same worker process "
+        "(results must agree, input arrays must come back unmodified) and the functions are interleaved in random "
+        "order within one process. Non-trivial = an image with two touching labels or a hole, a graph with an edge "
+        "joining two different vertices; distinct by hash")
 TRUSTED = ["modelled, not verified: NumPy/SciPy array semantics used by the Python code (np.unique, lexsort, fancy "
-           "indexing, scipy.ndimage.sum/minimum_filter/maximum_filter) as transcribed in Model/LabelGraph.v",
+           "indexing, scipy.ndimage.sum/minimum_filter/maximum_filter) as transcribed in Model/LabelGraph.v; dtype "
+           "promotion / wrap-around is not modelled (labels are Z) - it is exercised by the correspondence over "
+           "every integer dtype incl. labels at the dtype maximum",
            "the stack array stack_v[0..stack_ptr) of _all_connected_components is modelled as a list; uint32 "
            "UNDEFINED = -1 is modelled as an absent map entry; the C arrays are PositiveMap-backed",
-           "euler = components - holes is proved by exhaustive kernel evaluation on small images only (Finite: all "
-           "images up to 3x3 over {0,1,2}, binary images 1x4..3x4, 4x1..4x3, 1x5, 2x5, 5x1, 5x2); the general case "
-           "rests on quad_counts_spec (Full) plus the executable flood-fill definition Spec.LabelGraph.euler_spec "
-           "evaluated on every generated case",
-           "the flood-fill executable specifications in Spec/LabelGraph.v (fill/components) are definitions, not "
-           "proved equivalent to an inductive connectivity relation; for graphs with more than 80 edges the partition is "
-           "checked by a Python union-find instead of the extracted Spec.LabelGraph.acc_ok"]
+           "euler = components - holes: Full for the quad counts (quad_counts_spec), for the local change under "
+           "deletion of a pixel and for every image reducible by simple/isolated deletions (euler_reducible, value "
+           "4k); equality with components - holes is Finite (exhaustive small images) and otherwise conditional "
+           "on C05's simple_removal_topo (Partial); the executable flood-fill definition euler_spec is evaluated on "
+           "every generated case",
+           "the spanning-forest certificate for all_connected_components is computed by the Python harness but only "
+           "verified by the extracted Spec.LabelGraph.acc_cert_ok (soundness proved), so it is not trusted"]
 ASSUMPTIONS = ["labels are non-negative integers; label images are rectangular and non-empty",
-               "vertex numbers are non-negative and below 2^32 - 1; fewer than 2^32 edges"]
+               "vertex numbers are non-negative and below 2^32 - 1; fewer than 2^32 edges (vertex numbers near 2^31 are not "
+               "run: the label array alone would need > 8 GB)",
+               "relabel is not run on uint64 images (TypeError on the unchanged tree, findings/C15.json candidate C15-obs1)"]
 EXHAUSTIVE = {"quick": False, "thorough": False}
 CASE_TIMEOUT = 120
 
